@@ -214,3 +214,46 @@ func varEqConst(info *types.Info, f cfgx.Fact, v *types.Var, c int64) (val bool,
 	}
 	return !f.Val, true
 }
+
+// eqFact interprets a fact as a statement about `A == B` for expressions
+// matched by ma and mb (in either order): handles ==, != and switch-case
+// facts (tag vs case expression). It returns the implied truth value.
+func eqFact(f cfgx.Fact, ma, mb func(ast.Expr) bool) (val bool, ok bool) {
+	if f.Tag != nil {
+		if (ma(f.Tag) && mb(f.Cond)) || (mb(f.Tag) && ma(f.Cond)) {
+			return f.Val, true
+		}
+		return false, false
+	}
+	b, isBin := ast.Unparen(f.Cond).(*ast.BinaryExpr)
+	if !isBin || (b.Op != token.EQL && b.Op != token.NEQ) {
+		return false, false
+	}
+	if !((ma(b.X) && mb(b.Y)) || (mb(b.X) && ma(b.Y))) {
+		return false, false
+	}
+	if b.Op == token.EQL {
+		return f.Val, true
+	}
+	return !f.Val, true
+}
+
+// positiveFact: the facts imply v > 0 for the integer variable v.
+func positiveFact(info *types.Info, facts []cfgx.Fact, v *types.Var) bool {
+	for _, f := range facts {
+		if f.Tag != nil {
+			continue
+		}
+		x, op, c, ok := cmpConst(info, f.Cond)
+		if !ok || core.VarOf(info, x) != v || v == nil {
+			continue
+		}
+		if !f.Val {
+			op = negate(op)
+		}
+		if (op == token.GTR && c >= 0) || (op == token.GEQ && c >= 1) {
+			return true
+		}
+	}
+	return false
+}
